@@ -73,10 +73,19 @@ type Violation struct {
 }
 
 // NewRun starts a run.
+// ForceScratch makes every new run a scratch run (used by the generic
+// replayer, which re-executes a whole check and looks for one signature).
+var ForceScratch bool
+
+// OnlySignature, when set, restricts what a scratch run reports as
+// reproduced to that violation signature.
+var OnlySignature string
+
 func NewRun(property, tier, level string) *Run {
 	r := &Run{Property: property, Tier: tier, Level: level, start: time.Now(),
 		Cov: map[string]any{}, counters: map[string]int64{}, hist: map[string]map[string]int64{},
 		maxSamples: 12, distinct: map[string]bool{}}
+	r.Scratch = ForceScratch
 	kf, err := LoadKnownFindings()
 	if err != nil {
 		fmt.Fprintf(os.Stderr, "INTERNAL: known findings: %v\n", err)
@@ -264,6 +273,19 @@ func (r *Run) Finish() int {
 		evd["assumptions"] = []string{}
 	}
 	if r.Scratch {
+		if OnlySignature != "" {
+			var keep []Violation
+			for _, v := range r.violations {
+				if v.Signature == OnlySignature {
+					keep = append(keep, v)
+				}
+			}
+			if len(keep) == 0 && len(r.violations) > 0 {
+				fmt.Printf("the recorded signature did not reappear; %d other violation(s) of %s did:\n", len(r.violations), r.Property)
+				keep = r.violations
+			}
+			r.violations = keep
+		}
 		for _, v := range r.violations {
 			fmt.Printf("REPRODUCED property=%s\n  signature: %s\n  what: %s\n", r.Property, v.Signature, v.What)
 		}
